@@ -126,8 +126,10 @@ def signature(mm, beh):
     if key == "ret":
         want = "/".join(a.get("ret") for a in alts)
         key = "ret=%s,want=%s" % (obs.get("ret"), want)
-    return "x09:%s:%s:%s:%s" % (arg.get("fe"), style_of(arg) if arg.get("fe") != "folder" else "dir",
-                                 "fail" if arg.get("fail") else "nofail", key)
+    cls = "fail" if arg.get("fail") else "nofail"
+    if arg.get("fe") in ("nodeparse", "folder") + CXX_FE and not arg.get("log"):
+        cls += ",nolog"          # called without the optional logger argument
+    return "x09:%s:%s:%s:%s" % (arg.get("fe"), style_of(arg) if arg.get("fe") != "folder" else "dir", cls, key)
 
 
 def run_split(exes, behs):
@@ -137,18 +139,27 @@ def run_split(exes, behs):
     for i, b in enumerate(behs):
         fe = next((s["arg"].get("fe") for s in b if s["a"] == "load"), "")
         idx["cxx" if fe in CXX_FE else "c"].append(i)
-    recs = []
+    jobs = []
+    step = 1500
     for which, ids in idx.items():
-        if not ids:
-            continue
-        sub = [behs[i] for i in ids]
-        step = 4000
-        for lo in range(0, len(sub), step):
-            r, _ = vlib.run_driver(exes[which], script(sub[lo:lo + step], lo), env=dict(env, ASAN_OPTIONS=vlib.ASAN_ENV + ":symbolize=0"))
-            for x in r:
-                if isinstance(x.get("b"), int):
-                    x["b"] = ids[x["b"]]
-            recs += r
+        for lo in range(0, len(ids), step):
+            jobs.append((which, ids[lo:lo + step]))
+
+    def work(job):
+        which, part = job
+        r, _ = vlib.run_driver(exes[which], script([behs[i] for i in part]), env=dict(env, ASAN_OPTIONS=vlib.ASAN_ENV + ":symbolize=0"))
+        for x in r:
+            if isinstance(x.get("b"), int):
+                x["b"] = part[x["b"]]
+        return r
+    recs = []
+    if len(jobs) <= 1:
+        for j in jobs:
+            recs += work(j)
+    else:       # the batches are independent processes (own temporary file names): side by side
+        with concurrent.futures.ThreadPoolExecutor(max_workers=4) as ex:
+            for r in ex.map(work, jobs):
+                recs += r
     return recs
 
 
@@ -265,7 +276,9 @@ def gen_sequences(ck, cfg):
             fe = rng.choice(CXX_FE) if cxx else rng.choice(fes_c)
             lacc = rng.choice([[1], [1], [1], [110, 115], [0]])
             ev.append({"a": "doc", "arg": {"fmt": fmt, "acc": acc, "items": items, "fe": fe, "lacc": lacc,
-                                           "fail": 0 if cxx else rng.choice([0, 0, 0, 1, 2, 3, 4, 5, 6, 7, 8, 10, 12, 16, 24, cfg["maxk"]])}})
+                                           "fail": 0 if cxx else rng.choice([0, 0, 0, 1, 2, 3, 4, 5, 6, 7, 8, 10, 12, 16, 24, cfg["maxk"]]),
+                                           # the optional logger argument (front ends that have one): none / a log target
+                                           "log": rng.choice([0, 1]) if fe in ("nodeparse",) + CXX_FE else 0}})
             if rng.random() < 0.2:
                 ev.append({"a": "clear", "arg": {"x": 0}})
         ev.append({"a": "clear", "arg": {"x": 0}})
@@ -362,7 +375,7 @@ def _run(ck, tier, cfg, notes):
                 a = e["arg"]
                 beh.append({"a": "load", "arg": {"fe": a["fe"], "fmt": [[b, 1] for b in a["fmt"]],
                                                  "acc": [[b, 1] for b in (a["acc"] if a["lacc"] == [1] else a["lacc"])],
-                                                 "text": t, "fail": a["fail"]}, "_doc": e})
+                                                 "text": t, "fail": a["fail"], "log": a["log"]}, "_doc": e})
             else:
                 beh.append({"a": e["a"], "arg": e["arg"]})
         tbehs.append(beh)
